@@ -120,6 +120,14 @@ class ControlPeer(netsim.Peer):
             elif s.ending == 'missing_final':
                 conn.feed_eof()
                 self.events.append('control-eof')
+            elif s.ending == 'partial_final':
+                # the control connection drops in the middle of the final reply line
+                cut = s.final.rstrip(b'\r\n')
+                cut = cut[:max(4, len(cut) - 3)]
+                self.events.append('partial-final-reply-fed')
+                await conn.feed_pieces(s.segment(cut))
+                conn.feed_eof()
+                self.events.append('control-eof')
         dp.conn = None
 
 
